@@ -297,6 +297,6 @@ func c18Parent(prop, tier string) int {
 
 func init() {
 	Registry["C18"] = &Check{Level: "model_checking", Worker: c18Worker, Parent: c18Parent, QuickBudget: 60 * time.Second, ThoroughBudget: 10 * time.Minute,
-		Rule: "the real meter/meter.go, mechanically rewritten from its current text so that every mutex, atomic, channel, select, close, ticker and go statement is a scheduling point of a cooperative scheduler (one logical thread at a time), as is every write to the meter's writer; threads: the worker (Start/Inc*/Done per phase), every ticker goroutine the code spawns, one environment thread per ticker offering 2 (quick) / 3 (thorough) ticks; ALL schedules with at most 3 (quick) / 4 (thorough) deviations from the default schedule are executed; oracle on the byte frames written to the meter's writer: exactly one LF-terminated frame per phase carrying the number of Inc calls, counts within a phase never decrease and never exceed the final count, no frame of a phase after its final line or before its Start; deadlock, panic and step-horizon are violations; every violation is confirmed by replaying its schedule twice. end-to-end: in-process scans of all commit DAGs n<=3 (all commits sharing one root tree) and the mixed family with the real meter: each phase's final line must carry the census count of its kind (references phase: number of roots). states = distinct frame sequences observed; transitions = scheduling steps",
+		Rule:        "the real meter/meter.go, mechanically rewritten from its current text so that every mutex, atomic, channel, select, close, ticker and go statement is a scheduling point of a cooperative scheduler (one logical thread at a time), as is every write to the meter's writer; threads: the worker (Start/Inc*/Done per phase), every ticker goroutine the code spawns, one environment thread per ticker offering 2 (quick) / 3 (thorough) ticks; ALL schedules with at most 3 (quick) / 4 (thorough) deviations from the default schedule are executed; oracle on the byte frames written to the meter's writer: exactly one LF-terminated frame per phase carrying the number of Inc calls, counts within a phase never decrease and never exceed the final count, no frame of a phase after its final line or before its Start; deadlock, panic and step-horizon are violations; every violation is confirmed by replaying its schedule twice. end-to-end: in-process scans of all commit DAGs n<=3 (all commits sharing one root tree) and the mixed family with the real meter: each phase's final line must carry the census count of its kind (references phase: number of roots). states = distinct frame sequences observed; transitions = scheduling steps",
 		Assumptions: []string{"scheduling points sit at synchronisation operations: an unsynchronised access is invisible to the explorer (data races are looked for by the separate free-running -race pass of C17, which is sampling and decides nothing)", "ticks beyond the per-ticker bound are not explored"}}
 }
